@@ -119,14 +119,14 @@ class PathResult:
         return f"<Path {self.kind} dec={self.decisions} pc={self.pc}>"
 
 
-def explore(run, assumptions=(), max_paths=400, catch=(Exception,)):
+def explore(run, assumptions=(), max_paths=400, catch=(Exception,), only=None):
     """Run `run()` along every feasible path.  Returns list[PathResult].
 
     `run` may raise: exceptions listed in `catch` end the path with kind='raise'
     (OutOfReach and internal errors always propagate)."""
     global CUR
     results = []
-    work = [[]]
+    work = [[]] if only is None else [list(x) for x in reversed(only)]
     while work:
         prefix = work.pop()
         if len(results) >= max_paths:
@@ -145,5 +145,6 @@ def explore(run, assumptions=(), max_paths=400, catch=(Exception,)):
         finally:
             CUR = prev
         results.append(PathResult(ctx.pc, ctx.decisions, kind, val, exc, ctx.notes, ctx.effects))
-        work.extend(ctx.pending)
+        if only is None:
+            work.extend(ctx.pending)
     return results
